@@ -4,6 +4,7 @@
        attempt (a thread is about to call SynthDef), enter / mid / leave (observations made INSIDE
        the graph function: is the global context this definition, is the build lock held),
        exit (result: raised, sha of the bytes, units of this function attached elsewhere),
+       rattempt (a thread is about to start a read-back on its own, possibly while another thread builds),
        read (another user of the lock/context finished: add / store / new_from read-back, reader on bytes/files),
        probe (nobody is building: context, lock, owner of a unit created right now), hang
    kind "det": for one program the results of building it in different histories, threads,
@@ -12,7 +13,7 @@
    The reconstructed protocol state (pc per thread, lock, ctx, fin) is judged with the predicates
    of Build.tla: ExclusiveOK, IdleOK, DetOK.                                                  *)
 EXTENDS Naturals, Integers, Sequences, FiniteSets, TLC, Json, IOUtils
-Threads == {} Funcs == {} MaxAttempts == 0 ClearOnFail == TRUE ClearOnReadFail == TRUE UseLock == TRUE
+Threads == {} Funcs == {} MaxAttempts == 0 ClearOnFail == TRUE ClearOnReadFail == TRUE UseLock == TRUE CtxEarly == FALSE ClearLate == FALSE
 VARIABLES lock, ctx, pc, att, nb, owner, fin, natt, orphans
 B == INSTANCE Build
 Traces == JsonDeserialize(IOEnv.VERIF_TRACES)
@@ -52,7 +53,10 @@ Apply(e) ==
       \* another user of the lock / context (read-back of add / store / new_from, the reader on bytes or files,
       \* valid or damaged) ran to its end, successfully or not: nothing is claimed about its result, everything about
       \* what the next probe finds
-      [] e.e = "read" -> R(IF pc[e.t] # "idle" THEN "recorder:read-while-building" ELSE "ok", pc, lock, ctx, fin)
+      [] e.e = "rattempt" -> IF pc[e.t] # "idle" THEN R("recorder:read-while-building", pc, lock, ctx, fin)
+                             ELSE R("ok", [pc EXCEPT ![e.t] = "rwant"], lock, ctx, fin)
+      [] e.e = "read" -> IF pc[e.t] \notin {"idle", "rwant"} THEN R("recorder:read-while-building", pc, lock, ctx, fin)
+                         ELSE R("ok", [pc EXCEPT ![e.t] = "idle"], lock, ctx, fin)
       [] e.e = "probe" ->
             IF \E t \in DOMAIN pc : pc[t] # "idle" THEN R("ok", pc, lock, ctx, fin)      \* somebody may be building: no claim
             ELSE IF ~B!IdleOK(IF e.lock_free = 1 THEN 0 ELSE 1, IF e.ctx_none = 1 THEN 0 ELSE 1, pc)
